@@ -374,6 +374,10 @@ def merge_drop(ctx):
                     e = elem_of(k)
                     if e and param_path(e[0]) and param_path(e[0])[0] == 2 and param_path(e[0])[1] == (r['entries'],):
                         ins.append((bb, c))
+        # an insert that only happens when we already hold the entry is the both-sides store (`occupied.insert(common)`), not an adoption
+        if ins:
+            rc_has = Reach(facts, body, Evaluator(facts, bool_atom=lambda t: presence_atom(t, 1, r['entries'], 'ours_has'), assumption={'ours_has': False}))
+            ins = [(b_, c_) for b_, c_ in ins if b_ in rc_has.reachable]
         if not ins:
             ctx.fail(name, body, "entries only the other side has are never adopted (no insert into self.%s keyed by an item of other.%s)"
                      % (r['entries'], r['entries']), props=props)
@@ -577,6 +581,16 @@ def merge_common(ctx):
             if tgt and tgt[0] == 1 and tgt[1] == (r['entries'],) and tgt[2] == 'ew' and tuple(tgt[3]) == tuple(sub):
                 if drop_lv(w.val) == common_term:
                     asg.append(b2)   # `entry.clock = common` or `mem::replace(&mut entry.clock, common)`
+        if not sub:
+            # the element IS the clock (Orswot): storing may also be an insert under the same key (`occupied.insert(common)`,
+            # `self.entries.insert(member, common)`), which replaces the clock of the entry that is there
+            for b2, c2 in it.calls.items():
+                if call_name(c2.term) == 'insert' and len(c2.args) == 3 and c2.args[0].is_mut_ref:
+                    pp = param_path(versionless(c2.args[0].val))
+                    k = elem_of(versionless(c2.args[1].val))
+                    if pp and pp[0] == 1 and pp[1] == (r['entries'],) and k and param_path(k[0]) and param_path(k[0])[0] == 2 \
+                            and drop_lv(c2.args[2].val) == common_term:
+                        asg.append(b2)
         res = {}
         for val in (True, False):
             rc = Reach(facts, body, Evaluator(facts, bool_atom=atom, assumption={'empty': val}))
